@@ -29,6 +29,10 @@ func (p *Prog) inlineTarget(g *Func) bool {
 		if g.Decl == nil || g.Obj == nil || g.Body == nil || !g.isHandWritten() {
 			return false
 		}
+		// value functions the rules reason about as a unit stay calls: the minimum deposit of a pricing
+		if roleValueFunc(g) {
+			return false
+		}
 		// exported functions are API; a method of an unexported type is not reachable from outside whatever its name
 		if g.Obj.Exported() {
 			unexportedRecv := false
@@ -428,6 +432,12 @@ func (p *Prog) spliceable(f *Func, ev *Event) bool {
 		return true
 	}
 	if ev.CI.name == "dyn" && g.Lit != nil && g.Parent != nil {
+		// a literal applied to a record gathered from a store scan is the handler of that scan: it stays a unit of its own
+		for _, a := range ev.CI.args {
+			if a.ContainsOp("sdk.KVStorePrefixIterator") || a.ContainsOp("sdk.KVStoreReversePrefixIterator") {
+				return false
+			}
+		}
 		for _, h := range p.spliceHosts {
 			if h == g.Parent {
 				return true
@@ -826,4 +836,18 @@ func (p *Prog) constModeParam(g *Func) bool {
 		})
 	}
 	return nCalls >= 2 && len(cand) > 0
+}
+
+// roleValueFunc: a keeper function Pricing → Coins (the minimum deposit a pricing requires): its value is compared
+// as a whole, so it is never walked in place.
+func roleValueFunc(g *Func) bool {
+	if g.pkgName() != "keeper" || len(g.Res) != 1 || typeName(g.Res[0].Type()) != "sdk.Coins" {
+		return false
+	}
+	for _, pr := range g.Params {
+		if namedStruct(pr.Type()) == "Pricing" {
+			return true
+		}
+	}
+	return false
 }
